@@ -33,12 +33,13 @@ func TestMain(m *testing.M) {
 // fakeStore is one underlying database instance: a memorydb store that counts Close / Drop.
 type fakeStore struct {
 	kvdb.Store
-	p          *fakeProducer
-	name       string
-	serial     int
-	closeCalls int
-	dropCalls  int
-	closed     bool
+	p           *fakeProducer
+	name        string
+	serial      int
+	closeCalls  int
+	dropCalls   int
+	closed      bool
+	closeFailed bool
 }
 
 func (s *fakeStore) Close() error {
@@ -48,8 +49,18 @@ func (s *fakeStore) Close() error {
 		return errors.New("fake store: already closed")
 	}
 	s.closed = true
-	return s.Store.Close()
+	err := s.Store.Close()
+	if s.p.failCloseNext[s.name] {
+		// injected fault: the one and only Close call of this database reports an error (a failed final flush).
+		// It still is the close of this database: nobody may call Close on it again.
+		delete(s.p.failCloseNext, s.name)
+		s.closeFailed = true
+		return errInjectedClose
+	}
+	return err
 }
+
+var errInjectedClose = errors.New("fake store: injected failure of the underlying Close")
 
 func (s *fakeStore) Drop() {
 	s.dropCalls++
@@ -61,20 +72,22 @@ func (s *fakeStore) Drop() {
 // fakeProducer implements kvdb.DBProducer and kvdb.FullDBProducer. Like a real backend it refuses
 // to open a database that is already open (LevelDB / Pebble hold a file lock).
 type fakeProducer struct {
-	stores     map[string][]*fakeStore // every underlying store ever opened, per name
-	openCalls  map[string]int
-	closeCalls map[string]int
-	dropCalls  map[string]int
-	failNext   map[string]bool // the next OpenDB of the name fails (injected fault)
+	stores        map[string][]*fakeStore // every underlying store ever opened, per name
+	openCalls     map[string]int
+	closeCalls    map[string]int
+	dropCalls     map[string]int
+	failNext      map[string]bool // the next OpenDB of the name fails (injected fault)
+	failCloseNext map[string]bool // the next underlying Close of a database of the name returns an error (injected fault)
 }
 
 func newFakeProducer() *fakeProducer {
 	return &fakeProducer{
-		stores:     map[string][]*fakeStore{},
-		openCalls:  map[string]int{},
-		closeCalls: map[string]int{},
-		dropCalls:  map[string]int{},
-		failNext:   map[string]bool{},
+		stores:        map[string][]*fakeStore{},
+		openCalls:     map[string]int{},
+		closeCalls:    map[string]int{},
+		dropCalls:     map[string]int{},
+		failNext:      map[string]bool{},
+		failCloseNext: map[string]bool{},
 	}
 }
 
@@ -152,7 +165,7 @@ func propC27(t *rapid.T) {
 	}
 	var history []string
 	overCloses, overClosesAfterOverlap, dropsIssued, dropsReached, reopenings, sharedOpens := 0, 0, 0, 0, 0, 0
-	failedOpens := 0
+	failedOpens, failedCloses, failedClosesReported := 0, 0, 0
 	hist := func() string { return strings.Join(history, " ") }
 
 	pick := func(t *rapid.T, ok func(m *nameModel) bool) string {
@@ -227,7 +240,8 @@ func propC27(t *rapid.T) {
 		m.dropBase = fake.dropCalls[n]
 	}
 
-	doClose := func(t *rapid.T, n string) {
+	// failing: the underlying Close call this Close leads to (if any) returns an injected error
+	doClose := func(t *rapid.T, n string, failing bool) {
 		m := model[n]
 		before := fake.closeCalls[n]
 		if m.count == 0 {
@@ -245,10 +259,26 @@ func propC27(t *rapid.T) {
 			}
 			return
 		}
-		history = append(history, "close("+n+")")
-		err := m.handle.Close()
-		if err != nil {
-			t.Fatalf("Close of %q (open count %d) returned %v; history: %s", n, m.count, err, hist())
+		var err error
+		if failing {
+			// The open is consumed whatever the underlying Close answers: the property counts Close calls against
+			// opens, and the underlying database is closed exactly once (the failed call is that one close, the
+			// text knows no retry). Whether the underlying error is handed to the caller is not in the text: both
+			// answers are accepted here (the code returns it).
+			history = append(history, "close("+n+") with injected underlying Close failure")
+			fake.failCloseNext[n] = true
+			err = m.handle.Close()
+			delete(fake.failCloseNext, n)
+			failedCloses++
+			if err != nil {
+				failedClosesReported++
+			}
+		} else {
+			history = append(history, "close("+n+")")
+			err = m.handle.Close()
+			if err != nil {
+				t.Fatalf("Close of %q (open count %d) returned %v; history: %s", n, m.count, err, hist())
+			}
 		}
 		m.count--
 		got := fake.closeCalls[n] - before
@@ -288,11 +318,15 @@ func propC27(t *rapid.T) {
 			doOpen(t, pick(t, func(m *nameModel) bool { return m.count > 0 }))
 		},
 		"close": func(t *rapid.T) {
-			doClose(t, pick(t, func(m *nameModel) bool { return m.count > 0 }))
+			doClose(t, pick(t, func(m *nameModel) bool { return m.count > 0 }), false)
+		},
+		// the last Close of a name reaches the underlying database and that Close call fails (injected fault)
+		"closeFails": func(t *rapid.T) {
+			doClose(t, pick(t, func(m *nameModel) bool { return m.count == 1 }), true)
 		},
 		// closing more often than opening (only on the latest handle of a name that was not re-opened since)
 		"overclose": func(t *rapid.T) {
-			doClose(t, pick(t, func(m *nameModel) bool { return m.count == 0 && m.handle != nil }))
+			doClose(t, pick(t, func(m *nameModel) bool { return m.count == 0 && m.handle != nil }), false)
 		},
 		// Drop is only issued as the stores allow it: after every open of the name has been closed
 		"drop": func(t *rapid.T) {
@@ -329,14 +363,14 @@ func propC27(t *rapid.T) {
 	// wind down: close what is still open
 	for _, n := range names {
 		for model[n].count > 0 {
-			doClose(t, n)
+			doClose(t, n, false)
 		}
 	}
 	checkInvariants(t)
 	// and, drawn, one more Close on each fully closed name
 	for _, n := range names {
 		if model[n].handle != nil && rapid.Bool().Draw(t, "finalOverclose") {
-			doClose(t, n)
+			doClose(t, n, false)
 			checkInvariants(t)
 		}
 	}
@@ -359,6 +393,9 @@ func propC27(t *rapid.T) {
 	if reopenings > 0 {
 		cls = append(cls, "with_reopen_after_full_close")
 	}
+	if failedCloses > 0 {
+		cls = append(cls, "with_failed_underlying_close")
+	}
 	if dropsIssued > 0 {
 		cls = append(cls, "with_drop")
 	}
@@ -376,6 +413,8 @@ func propC27(t *rapid.T) {
 	st.Class("overcloses", int64(overCloses))
 	st.Class("drops_issued", int64(dropsIssued))
 	st.Class("injected_open_failures", int64(failedOpens))
+	st.Class("injected_close_failures", int64(failedCloses))
+	st.Class("injected_close_failures_reported_to_caller", int64(failedClosesReported))
 	st.Class("drops_reaching_underlying", int64(dropsReached))
 	st.Sample(func() interface{} {
 		return map[string]interface{}{"wrap_all": useAll, "names": nNames, "history": hist()}
